@@ -235,7 +235,8 @@ class Check:
                 self.proofs.append(res)
                 self.proof = res
                 return res
-        dst = self.work / props_src.name
+        (self.work / "props").mkdir(exist_ok=True)
+        dst = self.work / "props" / props_src.name
         shutil.copy(props_src, dst)
         text = props_src.read_text()
         code = strip_coq_comments(text)
@@ -275,9 +276,33 @@ class Check:
             res.failed = ",".join(t["name"] for t in res.theorems if t["status"] != "proved")
         else:
             res.ok = True
+        if res.ok and self.tier == "thorough" and os.environ.get("VERIF_COQCHK", "1") != "0":
+            self._coqchk(res, dst, allowed)
         self.proofs.append(res)
         self.proof = res
         return res
+
+    def _coqchk(self, res, dst, allowed):
+        """Thorough tier: re-check the compiled property file and everything it depends on with the
+        independent checker coqchk, and read its context summary (axioms, type-in-type, unsafe
+        fixpoints, assumed positivity)."""
+        cmd = ["coqchk", "-silent", "-o", "-Q", str(THEORIES), "Tangelo", "-Q", str(self.work / "gen"), "Gen",
+               "-Q", str(dst.parent), "", dst.stem]
+        rc, out = sh(cmd, timeout=1500, cwd=str(self.work))
+        self.checker_cmds.append(" ".join(cmd))
+        summ = out[out.find("CONTEXT SUMMARY"):] if "CONTEXT SUMMARY" in out else out[-1500:]
+        axioms = []
+        m = re.search(r"\* Axioms:(.*?)\n\s*\n\*", summ, flags=re.S)
+        if m and "<none>" not in m.group(1):
+            axioms = [l.strip().split(" ")[0] for l in m.group(1).splitlines() if l.strip()]
+        bad_flags = [k for k in ("type-in-type", "unsafe (co)fixpoints", "positivity is assumed")
+                     if re.search(re.escape(k) + r":(?!\s*<none>)", summ)]
+        extra = [a for a in axioms if a not in allowed and a.split(".")[-1] not in {x.split(".")[-1] for x in allowed}]
+        self.notes.setdefault("coqchk", []).append({"file": dst.name, "exit": rc, "axioms": axioms, "flags": bad_flags})
+        if rc != 0 or bad_flags or extra:
+            res.ok = False
+            res.failed = "coqchk(%s)" % dst.name
+            res.log += "\n[coqchk exit %s]\n%s" % (rc, summ[-2000:])
 
     # ------------------------------------------------------------------ model evaluation
     def coq_eval(self, name, preamble, exprs, shard=300, timeout=900, jobs=8):
